@@ -292,7 +292,7 @@ Proof.
         left. split; reflexivity.
     + exfalso. apply NB. unfold fstep, mk. cbn [f_st]. rewrite Mx. reflexivity.
   - rewrite (fstep_FSec p (Some f) a b got i lines secs g ss x) in *. rewrite line_step_R2.
-    unfold Meta.slot, Layout.slot in *.
+
     destruct (length (got ++ [x]) =? Layout.ncont p) eqn:C; cbn [f_st f_lines mk] in *.
     + eexists _, RN. split; [constructor|]. left. split; [reflexivity|].
       rewrite meta_read_is_read_ts; try assumption.
